@@ -411,7 +411,15 @@ type StoreFactory struct {
 	// Fail, when set, is consulted before every write that assigns an outbound number; a non-nil error is
 	// returned to the engine instead of performing the write (a store that refuses: disk full, SQL error).
 	Fail func(op string, n int) error
+	// IterFailAfter >= 0: the next IterateMessages fails (once) after that many messages have been handed
+	// to the callback - a read error in the middle of a range. IterFailed reports that it happened.
+	IterFailAfter int
+	IterFailed    bool
+	armedIter     bool
 }
+
+// ArmIterFail makes the next IterateMessages fail after k delivered messages.
+func (f *StoreFactory) ArmIterFail(k int) { f.IterFailAfter, f.armedIter, f.IterFailed = k, true, false }
 
 func (f *StoreFactory) Create(sid quickfix.SessionID) (quickfix.MessageStore, error) {
 	in, err := f.inner.Create(sid)
@@ -529,6 +537,19 @@ func (s *StoreRec) GetMessages(b, e int) ([][]byte, error) {
 func (s *StoreRec) IterateMessages(b, e int, cb func([]byte) error) error {
 	s.rec("Iterate", b, e, nil, nil)
 	simsync.Yield("store:Iterate")
+	if f := s.eng.SF; f.IterFailAfter >= 0 && f.armedIter {
+		k, n := f.IterFailAfter, 0
+		f.armedIter = false
+		return s.inner.IterateMessages(b, e, func(m []byte) error {
+			if n == k {
+				f.IterFailed = true
+				s.env.Stat("fault_store_read_error_mid_range")
+				return fmt.Errorf("injected: read error after %d messages", k)
+			}
+			n++
+			return cb(m)
+		})
+	}
 	return s.inner.IterateMessages(b, e, cb)
 }
 func (s *StoreRec) Refresh() error {
